@@ -43,6 +43,11 @@ func registerVerifrt() {
 		m.noteConcreteDraw(uint64(k), "Choice")
 		return m.intVal(int64(k))
 	})
+	reg("Bool2", func(m *Machine, c *frame, fn *ssa.Function, a []value) value {
+		k := m.choice(2, "Bool2")
+		m.noteConcreteDraw(uint64(k), "Bool2")
+		return m.tt.Bool(k == 1)
+	})
 	reg("Bytes", func(m *Machine, c *frame, fn *ssa.Function, a []value) value {
 		n := int(m.concreteInt(a[0].(*Term), "Bytes length"))
 		arr := make([]value, n)
